@@ -1400,8 +1400,9 @@ class ThirdCoreHexToFullCoreChanger(GeometryChanger):
             runLog.extra(
                 f"Modifying parameters in central assembly {a} to revert from full to 1/3 core"
             )
-            for b in a:
-                self._scaleBlockVolIntegratedParams(b, "down")
+            if a is not None:
+                for b in a:
+                    self._scaleBlockVolIntegratedParams(b, "down")
         self.reset()
 
 
